@@ -67,6 +67,12 @@ func ParseAction(raw json.RawMessage) (Action, error) {
 				err = get(3, &a.Tracked)
 			}
 		}
+	case "ctor":
+		if err = get(1, &a.Op); err == nil {
+			if err = get(2, &a.Dims); err == nil {
+				err = get(3, &a.Tracked)
+			}
+		}
 	case "op":
 		if err = get(1, &a.Op); err == nil {
 			if err = get(2, &a.Par); err == nil {
@@ -157,6 +163,24 @@ func Exec(b *Behaviour, forceUntracked bool, noScribble ...bool) (nodes []tensor
 			}
 			nodes = append(nodes, t)
 			passed = append(passed, p)
+		case "ctor":
+			dims := append([]int{}, a.Dims...)
+			conf := &tensor.Config{Device: tensor.CPU, GradTrack: a.Tracked && !forceUntracked}
+			var t tensor.Tensor
+			var e error
+			switch a.Op {
+			case "full":
+				t, e = tensor.Full(dims, -3.5, conf)
+			case "zeros":
+				t, e = tensor.Zeros(dims, conf)
+			case "ones":
+				t, e = tensor.Ones(dims, conf)
+			}
+			if e != nil {
+				return nil, fmt.Errorf("action %d %s(%v): unexpected error: %v", i, a.Op, a.Dims, e)
+			}
+			nodes = append(nodes, t)
+			passed = append(passed, &bind.Passed{Ints: [][]int{dims}})
 		case "op":
 			args := make([]tensor.Tensor, len(a.Args))
 			for k, id := range a.Args {
